@@ -148,8 +148,9 @@ def list_edit(r, lst, make, removable=lambda o: True):
     return k
 
 
-def apply(doc, case_seed, i, gen):
-    """gen: a modelgen.Gen bound to `doc` (gen.doc = doc) used to build new objects"""
+def apply(doc, case_seed, i, gen, kinds=None):
+    """gen: a modelgen.Gen bound to `doc` (gen.doc = doc) used to build new objects;
+    kinds: restrict the edit kinds drawn from (e.g. ['attr', 'rename', 'save'] for value-only histories)"""
     from collada import scene, material, source
     r = random.Random('edit/%s/%s' % (case_seed, i))
     gen.rng = r
@@ -157,7 +158,7 @@ def apply(doc, case_seed, i, gen):
     gen.doc = doc
     kind = r.choice(['lib', 'lib', 'scene_nodes', 'node_children', 'node_children', 'transforms', 'transforms', 'matbind',
                      'matinputs', 'prims', 'sources', 'params', 'attr', 'attr', 'attr', 'rename', 'rename', 'default_scene',
-                     'contributors', 'save'])
+                     'contributors', 'save'] if kinds is None else kinds)
     ref = referenced(doc)
     nodes = all_nodes(doc)
     if kind == 'save':
@@ -229,6 +230,10 @@ def apply(doc, case_seed, i, gen):
             if not donors:
                 return None
             p = r.choice(donors)
+            polys = [q for q in donors if type(q).__name__ in ('Polylist', 'Polygons') and len(q) and min(int(v) for v in q.vcounts) >= 3]
+            if polys and r.random() < 0.35:
+                # the documented way to get triangles out of polygons: the derived set carries the polygon element it came from
+                return r.choice(polys).triangleset()
             il = p.getInputList()
             idx = numpy.array(p.index, dtype=numpy.int32).reshape(-1).copy()
             k = type(p).__name__
@@ -260,6 +265,8 @@ def apply(doc, case_seed, i, gen):
             g.sourceById[sid] = source.FloatSource(sid, numpy.array([gen.f32() for _ in range(6)], dtype=numpy.float32), ('X', 'Y', 'Z'))
         elif k == 'remove':
             c = [key for key, s in g.sourceById.items() if isinstance(s, source.Source) and key not in used and s.id not in used]
+            if sum(1 for s in g.sourceById.values() if isinstance(s, source.Source)) <= 1:
+                c = []      # a <mesh> without any <source> is not expressible: <vertices> needs a position source
             if not c:
                 return None
             del g.sourceById[r.choice(c)]
@@ -329,7 +336,7 @@ def apply(doc, case_seed, i, gen):
             o.name = 'N' + new
         return 'rename:' + name
     if kind == 'attr':
-        k = r.choice(['light', 'camera', 'effect', 'material', 'matnode', 'geomname', 'asset', 'image', 'nodename', 'geomds', 'transform', 'transform'])
+        k = r.choice(['light', 'camera', 'effect', 'material', 'matnode', 'geomname', 'asset', 'image', 'nodename', 'geomds', 'geomds', 'transform', 'transform'])
         if k == 'light' and doc.lights:
             l = r.choice(list(doc.lights))
             l.color = gen.color(3)
@@ -372,7 +379,8 @@ def apply(doc, case_seed, i, gen):
         elif k == 'geomname' and doc.geometries:
             r.choice(list(doc.geometries)).name = r.choice(['gname', 'G2'])
         elif k == 'geomds' and doc.geometries:
-            g = r.choice(list(doc.geometries))
+            on = [x for x in doc.geometries if x.double_sided]
+            g = r.choice(on) if on and r.random() < 0.7 else r.choice(list(doc.geometries))   # switching OFF needs an element that says "1"
             g.double_sided = not g.double_sided
         elif k == 'asset':
             a = doc.assetInfo
